@@ -238,6 +238,55 @@ def rebuild(mol, model, astereo, bstereo):
     return r
 
 
+def rebuild_other_order(model):
+    """A second twin filled in *another* storage order (atoms by descending number, each neighbour dictionary by descending
+    number): anything that is a function of the graph - not of the order in which atoms and bonds happened to be inserted -
+    must come out the same.  No labels are attached; only order-free values are compared with it (`order_free`)."""
+    from chython.containers import MoleculeContainer
+    from chython.containers.bonds import Bond
+    from chython.periodictable import Element
+
+    r = MoleculeContainer()
+    ra, rb = r._atoms, r._bonds
+    for n in sorted(model.atoms, reverse=True):
+        z, iso, ch, rad = model.atoms[n]
+        ra[n] = Element.from_atomic_number(z)(iso, charge=ch, is_radical=rad)
+        rb[n] = {}
+    for n in sorted(model.atoms, reverse=True):
+        for m in sorted(model.bonds[n], reverse=True):
+            rb[n][m] = rb[m][n] if n in rb[m] else Bond(model.bonds[n][m])
+    r.flush_cache()
+    r.calc_labels()
+    for n, a in ra.items():
+        if model.aromatic and any(b.order == 4 for b in rb[n].values()):
+            a._implicit_hydrogens = model.hyd.get(n)
+        else:
+            r.calc_implicit(n)
+    r.flush_cache()
+    return r
+
+
+def order_free(m):
+    """Values that depend on the graph only (no tie between equal alternatives is decided by storage order)."""
+    fns = {'atoms': lambda: sorted((n, a.implicit_hydrogens, a.explicit_hydrogens, a.neighbors, a.heteroatoms, a.hybridization, a.in_ring)
+                                   for n, a in m.atoms()),
+           'bonds': lambda: sorted((min(n, k), max(n, k), b.order, bool(b.in_ring)) for n, k, b in m.bonds()),
+           'rings_count': lambda: m.rings_count, 'ring_sizes': lambda: sorted(len(r) for r in m.sssr),
+           'components': lambda: sorted(tuple(sorted(c)) for c in m.connected_components),
+           'brutto': lambda: _sd(m.brutto), 'charge': lambda: m.molecular_charge, 'radical': lambda: m.is_radical,
+           'mass': lambda: round(m.molecular_mass, 6), 'valence': lambda: sorted(m.check_valence())}
+    out = {}
+    for k, f in fns.items():
+        try:
+            out[k] = f()
+        except Exception as e:
+            from chython.exceptions import ImplementationError
+            if isinstance(e, ImplementationError):
+                raise Discard(f'ImplementationError in order_free {k}: {e}')
+            out[k] = ('EXC', type(e).__name__)
+    return out
+
+
 # ---------------------------------------------------------------------------------------------
 # observers: name -> function(mol) -> plain comparable value
 
